@@ -465,8 +465,24 @@ LONGNAMES = [
 ]
 
 
+NEGATIVE = [
+    # units with negative scales, alone and combined
+    [['type', 'B1', 'x0', None], ['type', 'B2', 'y0', None],
+     ['unit', 'B1', 'xneg', ['scaled', 'F:-1/4', 'x0']],
+     ['unit', 'B1', 'x1', ['scaled', 'i:1000', 'x0']],
+     ['unit', 'B2', 'yneg', ['scaled', 'i:-60', 'y0']],
+     ['dtype', 'P', [['B1', 1], ['B2', 1]], None, None],
+     ['unit', 'P', 'xnyn', ['derive', ['xneg', 'yneg']]],
+     ['dtype', 'V', [['B1', 1], ['B2', -1]], None, None],
+     ['unit', 'V', 'xn/yn', ['derive', ['xneg', 'yneg']]],
+     ['unit', 'V', 'x1/yn', ['derive', ['x1', 'yneg']]],
+     ['dtype', 'S', [['B1', 2]], None, None],
+     ['dtype', 'R', [['B2', -1]], 'r0', None]],
+]
+
+
 def user_scripts(tier):
-    scripts = [list(s) for s in LONGNAMES]
+    scripts = [list(s) for s in LONGNAMES + NEGATIVE]
     for mask in range(2 ** len(OPTIONAL)):
         s = list(BASE)
         for i, evs in enumerate(OPTIONAL):
